@@ -149,6 +149,7 @@ def check(ctx):
     _selection(rep, model)
     _location(rep, model)
     _normalisers(rep, model)
+    _insert_rules(rep, model)
     return rep
 
 
@@ -629,3 +630,153 @@ def _normalisers(rep, model):
 class _NormHooks(PHooks):
     def on_call(self, interp, f, args, kwargs, node):
         return NotImplemented
+
+
+# --------------------------------------------------------------------------
+# R7: insert / append keep every axis of every argument, in order, at the
+# requested position -- for blocks of any dimension and any number of
+# arguments, identically for the set and the grid of a partition
+def _insert_rules(rep, model):
+    import itertools as _it
+    import numpy as _np
+    from ..namodel import NA, NAHooks, NAInterp, objarr
+    from ..symex import ClassV
+
+    DOM = 'odl/set/domain.py'
+    GRD = 'odl/discr/grid.py'
+
+    class IH(NAHooks):
+        def on_name(self, interp, name):
+            if name == 'safe_int_conv':
+                return Builtin('safe_int_conv', lambda v: v)
+            return NotImplemented
+
+        def on_call(self, interp, f, args, kwargs, node):
+            if isinstance(f, ClassV) and f.ci.name == 'IntervalProd':
+                return mk_intv(list(na_of_(args[0])), list(na_of_(args[1])))
+            if isinstance(f, ClassV) and f.ci.name == 'RectGrid':
+                return mk_grid(list(args))
+            return NotImplemented
+
+    def na_of_(v):
+        from ..namodel import na_of
+        return [x for x in na_of(v).a.ravel()]
+
+    def mk_intv(mins, maxs):
+        o = Inst(model.get('IntervalProd'))
+        o.attrs['_IntervalProd__min_pt'] = NA(objarr(list(mins)), 'float64')
+        o.attrs['_IntervalProd__max_pt'] = NA(objarr(list(maxs)), 'float64')
+        return o
+
+    def mk_grid(vecs):
+        o = Inst(model.get('RectGrid'))
+        o.attrs['_RectGrid__coord_vectors'] = tuple(vecs)
+        o.attrs['_RectGrid__ndim'] = len(vecs)
+        return o
+
+    def labels(tag, n):
+        return ['%s%d' % (tag, i) for i in range(n)]
+
+    blocks = [(1,), (2,), (1, 1), (2, 1), (1, 2), (2, 2, 1), (1, 2, 1)]
+    n = 0
+    for cls, rel in (('IntervalProd', DOM), ('RectGrid', GRD)):
+        ci = model.get(cls)
+        if ci is None or 'insert' not in ci.methods:
+            raise AnalysisError('anchor vanished: %s.insert' % cls)
+        bad = []
+        for dims in blocks:
+            for index in (0, 1, 2, -1, -2):
+                n += 1
+                I = NAInterp(model, {}, IH())
+                sl = labels('s', 2)
+                bl = [labels('b%d_' % k, d) for k, d in enumerate(dims)]
+                if cls == 'IntervalProd':
+                    mk = lambda ls: mk_intv(
+                        [Rat.var(l + 'min') for l in ls],
+                        [Rat.var(l + 'max') for l in ls])
+                else:
+                    mk = lambda ls: mk_grid([Rec('vec', label=l) for l in ls])
+                selfo = mk(sl)
+                args = [mk(b) for b in bl]
+                idx = index if index >= 0 else index + 2
+                want = sl[:idx] + [l for b in bl for l in b] + sl[idx:]
+                try:
+                    res = I.call(I.getattr_value(selfo, 'insert'),
+                                 [index] + args, {})
+                    if cls == 'IntervalProd':
+                        got = [str(v)[:-3] for v in
+                               res.attrs['_IntervalProd__min_pt'].a]
+                        gmax = [str(v)[:-3] for v in
+                                res.attrs['_IntervalProd__max_pt'].a]
+                        if gmax != got:
+                            got = ['min/max differ']
+                    else:
+                        got = [v.attrs['label'] for v in
+                               res.attrs['_RectGrid__coord_vectors']]
+                except PyRaise as e:
+                    got = ['raises ' + e.name]
+                if got != want:
+                    bad.append('insert(%d, blocks of ndim %s): axes %s, '
+                               'expected %s' % (index, dims, got, want))
+        cons = '%s.insert' % cls
+        if bad:
+            rep.violation('R7', cons, '%d configurations fail; first: %s'
+                          % (len(bad), bad[0]), rel,
+                          ci.methods['insert'].lineno)
+        else:
+            rep.holds('R7', cons, 'all block dimension / position '
+                      'configurations')
+    rep.floor('R7', 'insert configurations', n, 70)
+    # RectPartition.insert forwards the same index to grid and set
+    ci = model.get('RectPartition')
+    seen = []
+
+    class PH(NAHooks):
+        def on_call(self, interp, f, args, kwargs, node):
+            if isinstance(f, ClassV) and f.ci.name == 'RectPartition':
+                return Rec('RectPartition', set=args[0], grid=args[1])
+            return NotImplemented
+
+        def on_getattr(self, interp, obj, name):
+            if isinstance(obj, Rec) and name in obj.attrs:
+                return obj.attrs[name]
+            return NotImplemented
+    try:
+        I = NAInterp(model, {}, PH())
+
+        def side(tag):
+            return Rec(tag, insert=Builtin('insert', lambda i, *a: (
+                seen.append((tag, i, a)) or Rec('new' + tag))))
+        p = Inst(ci)
+        p.attrs['_RectPartition__set'] = side('set')
+        p.attrs['_RectPartition__grid'] = side('grid')
+        parts = []
+        for k in range(2):
+            q = Inst(ci)
+            q.attrs['_RectPartition__set'] = Rec('pset%d' % k)
+            q.attrs['_RectPartition__grid'] = Rec('pgrid%d' % k)
+            parts.append(q)
+        res = I.call(I.getattr_value(p, 'insert'), [1] + parts, {})
+        probs = []
+        d = {t: (i, a) for t, i, a in seen}
+        if set(d) != {'set', 'grid'}:
+            probs.append('inserts into %s' % sorted(d))
+        else:
+            if d['set'][0] != 1 or d['grid'][0] != 1:
+                probs.append('different positions for set and grid')
+            if [a.kind for a in d['set'][1]] != ['pset0', 'pset1'] or \
+                    [a.kind for a in d['grid'][1]] != ['pgrid0', 'pgrid1']:
+                probs.append('arguments not forwarded in order')
+            if not (isinstance(res, Rec) and res.attrs['set'].kind ==
+                    'newset' and res.attrs['grid'].kind == 'newgrid'):
+                probs.append('result not built from the new set and grid')
+        if probs:
+            rep.violation('R7', 'RectPartition.insert', '; '.join(probs),
+                          'odl/discr/partition.py',
+                          ci.methods['insert'].lineno)
+        else:
+            rep.holds('R7', 'RectPartition.insert', 'same position and '
+                      'order for set and grid')
+    except Undecided as e:
+        rep.undecided('R7', 'RectPartition.insert', str(e),
+                      'odl/discr/partition.py')
